@@ -143,6 +143,8 @@ class WriteBack(Harness):
         # records of EQUAL byte length (a selection with repeats can then have exactly the size of the whole buffer)
         "bed3_eq": dict(fmt="bed3", rows=[[1, 2, 1], [1, 2, 1], [1, 1, 2]]),
         "fastq_eq": dict(fmt="fastq", records=[[1, 2], [1, 2], [2, 1]]),
+        "vcf": dict(fmt="vcf", rows=[[1, 1, 1, 1, 1, 1, 2, 2, 2, 3, 3], [2, 2, 1, 1, 2, 1, 1, 1, 2, 3, 3], [1, 1, 2, 1, 1, 1, 1, 3, 2, 3, 3]],
+                    header=["##fileformat=VCFv4.2", "#CHROM\tPOS\tID\tREF\tALT\tQUAL\tFILTER\tINFO\tFORMAT\tS1\tS2"]),
         "sam_crlf": dict(fmt="sam", rows=[[1, 1, 1, 2, 1, 2, 1, 1, 1, 2, 2, 2], [2, 1, 1, 1, 1, 1, 1, 1, 1, 1, 1, 3], [1, 2, 1, 1, 1, 1, 1, 1, 1, 1, 1, 1]],
                          header=["@HD\tVN:1.0"], crlf=True),
     }
@@ -159,6 +161,9 @@ class WriteBack(Harness):
                 out.append(dict(f, file=name, prog=p, replace=None))
             if name == "sam":
                 out.append(dict(f, file=name, prog="all", replace="position"))
+            if name == "vcf":
+                for p in (["all", "fixed", "tail"] if tier == "quick" else ["all", "fixed", "rev", "tail", "mask", "list", "cat"]):
+                    out.append(dict(f, file=name, prog=p, replace="position"))
             if name in ("sam", "sam_crlf"):
                 # a replaced column on selections that are not a prefix of the file (the other cells, incl. the optional tags, keep their text)
                 for p in (["fixed", "rev", "tail"] if tier == "quick" else ["fixed", "rev", "tail", "mask", "list", "cat"]):
@@ -308,7 +313,8 @@ class WriteBack(Harness):
                 if c == col:
                     if not cells[c]:
                         return False
-                    conj.append(canonical_text_post(x[f"new{j}"].t, len(cells[c]), cells[c]))
+                    conj.append(canonical_text_post(x[f"new{j}"].t + F.FORMATS[skel["fmt"]].get("write_offset", {}).get(skel["replace"], 0),
+                                                    len(cells[c]), cells[c]))
                 else:
                     if len(cells[c]) != w:
                         return False
@@ -343,7 +349,7 @@ class WriteBack(Harness):
             exp = list(hdr)
             for j, r in enumerate(idx):
                 cells = [[cx[f"c{r}_{c}_{k}"] for k in range(w)] for c, w in enumerate(skel["rows"][r])]
-                cells[col] = list(str(cx[f"new{j}"]).encode())
+                cells[col] = list(str(cx[f"new{j}"] + F.FORMATS[skel["fmt"]].get("write_offset", {}).get(skel["replace"], 0)).encode())
                 exp += [b for c, cell in enumerate(cells) for b in (cell + ([9] if c < len(cells) - 1 else [10]))]
         if cout["bytes"] != exp and not (skel["replace"] and skel.get("crlf") and bytes(cout["bytes"]).replace(b"\r\n", b"\n") == bytes(exp).replace(b"\r\n", b"\n")):
             return (f"file {text!r} read lazily, program {skel['prog']} (choices {cout['log']}) selects records {idx}"
